@@ -1605,12 +1605,21 @@ class _GroupElem(ABC):
 
         return self.__nodes[idx].copy()
 
+    def __Get_selection_tol(self) -> float:
+        """Tolerance of the geometric node selections.\n
+        1e-12 for coordinates of order one, growing with their magnitude: the round-off of a coordinate
+        of magnitude c is about 1e-16 * c, so a fixed 1e-12 rejects nodes lying on the geometry as
+        soon as the mesh is a few thousand units away from the origin."""
+        coord = self.coord
+        scale = float(np.abs(coord).max()) if coord.size else 1.0
+        return 1e-12 * max(1.0, scale)
+
     def Get_Nodes_Line(self, line: "Line") -> _types.IntArray:
         """Returns nodes on the line."""
 
         assert isinstance(line, Line)
 
-        idx = np.where(line.Contains(self.coord, 1e-12))[0]
+        idx = np.where(line.Contains(self.coord, self.__Get_selection_tol()))[0]
         return self.__nodes[idx].copy()
 
     def Get_Nodes_Domain(self, domain: "Domain") -> _types.IntArray:
@@ -1618,7 +1627,7 @@ class _GroupElem(ABC):
 
         assert isinstance(domain, Domain)
 
-        idx = np.where(domain.Encloses(self.coord, 1e-12))[0]
+        idx = np.where(domain.Encloses(self.coord, self.__Get_selection_tol()))[0]
         return self.__nodes[idx].copy()
 
     def Get_Nodes_Circle(self, circle: "Circle", onlyOnEdge=False) -> _types.IntArray:
@@ -1631,7 +1640,7 @@ class _GroupElem(ABC):
 
         test = circle.Contains if onlyOnEdge else circle.Encloses
 
-        idx = np.where(test(self.coord, 1e-12))[0]
+        idx = np.where(test(self.coord, self.__Get_selection_tol()))[0]
         return self.__nodes[idx].copy()
 
     def Get_Nodes_Cylinder(
@@ -1658,7 +1667,7 @@ class _GroupElem(ABC):
             cj = (R - coordN[:, 1].max()) / R
             J[:, 1] *= cj
 
-        eps = 1e-12
+        eps = self.__Get_selection_tol()
         coord = np.einsum(
             "ij,nj->ni", np.linalg.inv(J), self.coord - circle.center.coord
         )
